@@ -90,6 +90,9 @@ func VH_c14_roundtrip() {
 	var params []bgp.AsPathParamInterface
 	if vBool("confed") {
 		params = append(params, c14seg("c", true, 2, true))
+		if vBool("second_confed_segment") { // a leading confederation run of two segments
+			params = append(params, c14seg("c", true, 1, true))
+		}
 	}
 	segs := vParam("segs")
 	for i := 0; i < segs; i++ {
